@@ -276,8 +276,11 @@ class WebSocket(object):
             return
         if self.is_closing:
             yield events.Closed(message.code, message.reason)
-            self.state.closing = False
-            self.state.closed = True
+            # Under the send lock, so that another thread can't send
+            # between the two flags changing.
+            with self.state.send_lock:
+                self.state.closing = False
+                self.state.closed = True
         else:
             yield events.Closing(message.code, message.reason)
             self.close(message.code, message.reason)
